@@ -13,6 +13,16 @@ CLAIMED = {
         "note": TB + "Operands are steered through documents; key-list forms only reach operand vectors a single field can produce.",
         "technique": "Coq proof by induction over operand lists + exhaustive differential sweep (model vs crate vs Python table)",
     },
+    "C09": {
+        "text": "The comparison table and the casts are modelled line by line; cmp_int_complete proves that on the whole "
+                "i64 x u64 range every operator computes exactly the mathematical relation (fix D6), int_trichotomy / "
+                "ge_le_unions / float_trichotomy the order laws, float_order_is_real_order ties float comparison to the reals "
+                "through Flocq, cast_int_in_range / f64_round_Z_nearest / cast_unconvertible_false the casts (fix D7), "
+                "parse_i64_show / show_Z_injective the decimal text; the boundary grid of the property is enumerated "
+                "completely against the crate and an exact-arithmetic Python reference.",
+        "note": TB + "f64 decimal parsing/printing are oracles (Rust std). Float values are carried as bit patterns and interpreted by Flocq's binary64.",
+        "technique": "Coq proof (case analysis + lia over 64-bit ranges; Flocq Bcompare_correct) + exhaustive boundary grid, differential",
+    },
     "C10": {
         "text": "Object::find modelled function-by-function; find_exact proves, for every root object and every well-formed "
                 "path of any depth, that the lookup equals the reference descent (so never a value from another key, a "
